@@ -104,7 +104,26 @@ def variant_for(ops, i):
     return VARIANTS[(i + len(ops) + sum(ALPHABET.index(o) for o in ops[:i + 1])) % len(VARIANTS)]
 
 
-def start_wavefront(t, blocked=False):
+START_FORMS = ["planes", "ctor_str", "ctor_obj", "setter_str", "empty_str", "empty_obj"]
+
+
+def start_wavefront(t, blocked=False, form="planes"):
+    if form != "planes":
+        # a wavefront given its type directly: through the constructor or the ptype setter (type name or lentil.<type>
+        # object), or Wavefront.empty; a plane of the same type then gives it a shape without changing the type
+        tobj = getattr(lentil, t)
+        if form == "ctor_str":
+            w = lentil.Wavefront(WL, pixelscale=DX, focal_length=Z, ptype=t)
+        elif form == "ctor_obj":
+            w = lentil.Wavefront(WL, pixelscale=DX, focal_length=Z, ptype=tobj)
+        elif form == "setter_str":
+            w = lentil.Wavefront(WL, pixelscale=DX, focal_length=Z)
+            w.ptype = t
+        else:
+            w = lentil.Wavefront.empty(WL, pixelscale=DX, focal_length=Z, shape=(N, N), ptype=t if form == "empty_str" else tobj)
+        if t != "none" and not form.startswith("empty"):
+            w = w * lentil.Plane(amplitude=np.ones((N, N)), ptype=t)
+        return w
     w = lentil.Wavefront(WL, pixelscale=DX, focal_length=Z)
     if blocked:
         # two generic apertures with disjoint supports: no field is left, the type is still 'none'
@@ -136,15 +155,15 @@ def snap_p(p):
             np.asarray(p.mask).tobytes(), len(p.tilt), p.pixelscale)
 
 
-def run_program(start, ops, ctx=None, variants=None, blocked=False):
-    with lentil_call("C08.start", f"start wavefront of type {start}{' (blocked)' if blocked else ''}"):
-        w = start_wavefront(start, blocked)
+def run_program(start, ops, ctx=None, variants=None, blocked=False, form="planes"):
+    with lentil_call("C08.start", f"start wavefront of type {start}{' (blocked)' if blocked else ''} [{form}]"):
+        w = start_wavefront(start, blocked, form)
     if str(w.ptype) != start:
         raise Violation("C08.start.type", f"{'blocked ' if blocked else ''}start wavefront has type '{w.ptype}', "
                                           f"expected '{start}'")
     t = start
     has_tilt = False
-    shaped = start != "none" or blocked
+    shaped = start != "none" or blocked or form.startswith("empty")
     n_refused = n_prop = 0
     for i, op in enumerate(ops):
         where = f"step {i} ({op}) on a {t} wavefront [program {start}: {' '.join(ops[:i + 1])}]"
@@ -254,11 +273,14 @@ def programs_enum(case, ctx):
 @hyp("C08", "programs_long", lambda tier: st.fixed_dictionaries(
         {"start": st.sampled_from(ptype_doc.WTYPES),
          "ops": st.lists(st.sampled_from(ALPHABET), min_size=5, max_size=30),
-         "blocked": st.sampled_from([False, False, False, True])}),
+         "blocked": st.sampled_from([False, False, False, True]),
+         "form": st.sampled_from(["planes", "planes", "planes"] + START_FORMS[1:])}),
      "drawn programs of length 5..30 (one in four from a wavefront that two disjoint apertures have emptied)",
      examples=(300, 1500))
 def programs_long(case, ctx):
-    run_program(case["start"], case["ops"], ctx, blocked=case.get("blocked", False))
+    form = case.get("form", "planes") if not case.get("blocked") else "planes"
+    ctx.tag("start_form:" + form)
+    run_program(case["start"], case["ops"], ctx, blocked=case.get("blocked", False), form=form)
     if case.get("blocked"):
         ctx.tag("blocked_start")
 
@@ -273,6 +295,8 @@ def _enum_variants(tier):
                     yield {"start": t, "op": op, "variant": v, "then": second}
                     if v == "constructed":
                         yield {"start": t, "op": op, "variant": v, "then": second, "blocked": True}
+                        for form in START_FORMS[1:]:
+                            yield {"start": t, "op": op, "variant": v, "then": second, "form": form}
 
 
 @enum("C08", "plane_variants", _enum_variants,
@@ -281,7 +305,9 @@ def _enum_variants(tier):
 def plane_variants(case, ctx):
     ops = [case["op"]] + ([case["then"]] if case["then"] else [])
     ctx.tag("variant:" + case["variant"], "blocked_start" if case.get("blocked") else None)
-    run_program(case["start"], ops, ctx, variants=[case["variant"]] * len(ops), blocked=case.get("blocked", False))
+    ctx.tag("start_form:" + case.get("form", "planes"))
+    run_program(case["start"], ops, ctx, variants=[case["variant"]] * len(ops), blocked=case.get("blocked", False),
+                form=case.get("form", "planes"))
     ctx.nontrivial_if(case["variant"] != "constructed")
 
 
